@@ -15,7 +15,7 @@ IR = os.path.join(SPECS, "ir")
 NAMES4 = ["a", "b", "a", "<none>"]
 CONSTS4 = [True, True, False, True]
 
-FOCI = ["coll", "multi", "nodelist", "nodeio"]
+FOCI = ["coll", "multi", "nodelist", "nodeio", "replace"]
 
 
 def _cfg_variant(scratch: str, focus: str, **subst) -> str:
@@ -55,7 +55,7 @@ def run_engine(ctx, want_cls: str) -> None:
 
     # ---- (A) exhaustive exploration per focus, every (state, call) replayed --------------------
     for focus in FOCI:
-        depth = 4 if thorough and focus != "nodeio" else 3
+        depth = {"replace": 3 if thorough else 2}.get(focus, 4 if thorough and focus != "nodeio" else 3)
         cfg = _cfg_variant(ctx.scratch, focus, MaxDepth=depth)
         res = ctx.tlc(mc_tla, cfg, tag=f"mc-{focus}", timeout=3000 if thorough else 900)
         if res.violated or res.errors or res.returncode != 0:
